@@ -449,7 +449,7 @@ func (c *compiler) body(a *asm, s *Script, blobs *[]blob) {
 			a.markHere(markOp, s, o)
 			a.op(vm.CALL)
 			a.markHere(markAfter, s, o)
-			a.op(vm.POP)
+			a.op(vm.JUMPDEST) // observation point; the status word stays on the stack (an exit that pushes none must not underflow it)
 		case "create":
 			var code []byte
 			if o.Sub != nil {
@@ -469,7 +469,7 @@ func (c *compiler) body(a *asm, s *Script, blobs *[]blob) {
 			a.markHere(markOp, s, o)
 			a.op(vm.CREATE)
 			a.markHere(markAfter, s, o)
-			a.op(vm.POP)
+			a.op(vm.JUMPDEST) // observation point; the status word stays on the stack (an exit that pushes none must not underflow it)
 		case "ETX":
 			alBlob := w.alBlob(o.Al)
 			if len(alBlob) > 0 {
@@ -496,7 +496,7 @@ func (c *compiler) body(a *asm, s *Script, blobs *[]blob) {
 			a.markHere(markOp, s, o)
 			a.op(vm.ETX)
 			a.markHere(markAfter, s, o)
-			a.op(vm.POP)
+			a.op(vm.JUMPDEST) // observation point; the status word stays on the stack (an exit that pushes none must not underflow it)
 		case "CONVERT":
 			a.pushBig(glValue(o.Gl))
 			pushAmount(a, o)
@@ -505,7 +505,7 @@ func (c *compiler) body(a *asm, s *Script, blobs *[]blob) {
 			a.markHere(markOp, s, o)
 			a.op(vm.CONVERT)
 			a.markHere(markAfter, s, o)
-			a.op(vm.POP)
+			a.op(vm.JUMPDEST) // observation point; the status word stays on the stack (an exit that pushes none must not underflow it)
 		case "UNWRAP", "CLAIM":
 			var in []byte
 			if o.A == "UNWRAP" {
@@ -538,7 +538,7 @@ func (c *compiler) body(a *asm, s *Script, blobs *[]blob) {
 			a.markHere(markOp, s, o)
 			a.op(vm.CALL)
 			a.markHere(markAfter, s, o)
-			a.op(vm.POP)
+			a.op(vm.JUMPDEST) // observation point; the status word stays on the stack (an exit that pushes none must not underflow it)
 		case "stop":
 			a.markHere(markOp, s, o)
 			a.op(vm.STOP)
